@@ -1,4 +1,5 @@
 import Ypv.Lemmas.EditCreate
+import Ypv.Lemmas.Collector
 /-!
 # C09 — queries never modify the document; creation adds exactly the missing path
 
@@ -168,5 +169,83 @@ example : (docL.createPath (.str ['x']) [.key ['l'], .index 2, .key ['k']]).map 
     = .ok (docL.graftAt (fun _ => seqL') [.key (.str ['l'])]) := by decide +kernel
 example : (docL.graftAt (fun _ => seqL') [.key (.str ['l'])]).get? [.key (.str ['m'])] = docL.get? [.key (.str ['m'])] := by
   decide +kernel
+
+
+/-! ## Purity of reads (wave w3): the evaluator with the document as explicit state
+
+`W3.requiredM mt dsc fuel segs r st : Gen CRes × St` (`Model/Collector.lean`) is `_get_required_nodes`
+with collectors; the state holds the document, the log of the `del node[key]` executed, and the flag
+`hashSub` = "a subtraction collector met a hash among the results of its left operand".  That flag IS
+the decidable input class of the known finding **C09-F1** (it is computed by the evaluation itself,
+independently of whether anything was deleted): outside it every read is pure.
+FULL STATEMENT (false for the pinned code, C09-F1): `(requiredM … st).2.doc = st.doc` for every path.
+No hypothesis on the matcher, the attribute evaluation, the fuel, the start node or the segments. -/
+section Purity
+open Ypv.W3
+variable (mt : Matcher) (dsc : Node → Desc)
+
+/-- **C09 (required-match evaluation).**  Unless a subtraction collector met a hash on its left
+(class of C09-F1), `_get_required_nodes` leaves the document exactly as it was and deletes nothing. -/
+theorem required_pure (fuel : Nat) (segs : List ESeg) (r : CRes) (st : St)
+    (h : (requiredM mt dsc fuel segs r st).2.hashSub = false) :
+    (requiredM mt dsc fuel segs r st).2.doc = st.doc ∧ (requiredM mt dsc fuel segs r st).2.dels = st.dels :=
+  (requiredM_pres fuel segs r st).2 h
+
+/-- The flag only rises: once a subtraction met a hash the evaluation stays in the class. -/
+theorem required_flag_monotone (fuel : Nat) (segs : List ESeg) (r : CRes) (st : St) (h : st.hashSub = true) :
+    (requiredM mt dsc fuel segs r st).2.hashSub = true :=
+  (requiredM_pres fuel segs r st).1 h
+
+/-- **C09, `get_nodes(path, mustexist=True)`.** -/
+theorem getRequired_pure (fuel : Nat) (segs : List ESeg) (d : Node)
+    (h : (getRequiredM mt dsc fuel segs d).2.hashSub = false) : (getRequiredM mt dsc fuel segs d).2.doc = d := by
+  unfold getRequiredM at h ⊢
+  by_cases hn : d.evIsNull = true
+  · rw [if_pos hn]; rfl
+  · rw [if_neg hn] at h ⊢
+    have hp := required_pure mt dsc fuel segs (.real d Ctx.root) (St.init d)
+    rcases hq : requiredM mt dsc fuel segs (.real d Ctx.root) (St.init d) with ⟨g, st'⟩
+    rw [hq] at h hp
+    exact (hp h).1
+
+/-- **C09, `exists(path)`.** -/
+theorem exists_pure (fuel : Nat) (segs : List ESeg) (d : Node)
+    (h : (existsM mt dsc fuel segs d).2.hashSub = false) : (existsM mt dsc fuel segs d).2.doc = d := by
+  unfold existsM at h ⊢
+  by_cases hn : d.evIsNull = true
+  · rw [if_pos hn]; rfl
+  · rw [if_neg hn] at h ⊢
+    have hp := required_pure mt dsc fuel segs (.real d Ctx.root) (St.init d)
+    rcases hq : requiredM mt dsc fuel segs (.real d Ctx.root) (St.init d) with ⟨g, st'⟩
+    rw [hq] at h hp
+    exact (hp h).1
+
+/-- **C09, the query from the path text** (parsed by the parser model, nested collector texts too). -/
+theorem query_pure (text : Str) (d : Node) (h : (queryM mt dsc text d).2.hashSub = false) :
+    (queryM mt dsc text d).2.doc = d := by
+  unfold queryM at h ⊢
+  by_cases hn : d.evIsNull = true
+  · rw [if_pos hn]; rfl
+  · rw [if_neg hn] at h ⊢
+    cases hs : segsOf text with
+    | error e => rfl
+    | ok segs =>
+      rw [hs] at h
+      exact getRequired_pure mt dsc _ _ d h
+
+end Purity
+
+/-- Witness of C09-F1 (kernel-checked): `(a)-(a.x)` over `a: {x: 1, y: 2}` is in the class, and the read
+leaves `a: {y: 2}`; the hypothesis of `query_pure` is met by `(a)+(a.x)` and by `(a.x)-(a)` (the left
+operand selects a scalar) on the same document. -/
+def f1Doc : Node := .map none [(.str ['a'], .map none [(.str ['x'], .scalar none (.int 1)), (.str ['y'], .scalar none (.int 2))])]
+def f1Mt : Matcher := fun _ _ _ => .ok true
+example : (W3.queryM f1Mt (fun _ => Desc.none) "(a)-(a.x)".toList f1Doc).2.hashSub = true := by decide +kernel
+example : (W3.queryM f1Mt (fun _ => Desc.none) "(a)-(a.x)".toList f1Doc).2.doc
+    = .map none [(.str ['a'], .map none [(.str ['y'], .scalar none (.int 2))])] := by decide +kernel
+example : (W3.queryM f1Mt (fun _ => Desc.none) "(a)-(a.x)".toList f1Doc).2.dels = [([.key (.str ['a'])], .str ['x'])] := by
+  decide +kernel
+example : (W3.queryM f1Mt (fun _ => Desc.none) "(a)+(a.x)".toList f1Doc).2.hashSub = false := by decide +kernel
+example : (W3.queryM f1Mt (fun _ => Desc.none) "(a.x)-(a)".toList f1Doc).2.hashSub = false := by decide +kernel
 
 end Ypv.C09
